@@ -422,3 +422,86 @@ Lemma c08_params : forall uri ns pstr more k,
   dict_get k (parameters (from_uri uri)) = last_wins k (valid_pairs (split_on AMP pstr)).
 Proof. exact params_spec. Qed.
 
+
+(* ---------- histories of add / remove ---------- *)
+Definition keys_op (ks : list bytes) (o : cop) : list bytes :=
+  match o with OAdd u => addk ks u | ORemove u => filter (fun k => negb (beq u k)) ks end.
+
+Lemma caps_remove_mk ks u : caps_remove (mk ks) u = mk (filter (fun k => negb (beq u k)) ks).
+Proof.
+  unfold caps_remove. induction ks as [|k ks IH]; simpl; [reflexivity|].
+  destruct (beq u k); simpl; [exact IH|now rewrite IH].
+Qed.
+
+Lemma apply_op_mk ks o : apply_op (mk ks) o = mk (keys_op ks o).
+Proof. destruct o; simpl; [apply caps_add_mk|apply caps_remove_mk]. Qed.
+
+Lemma fold_apply_mk ops ks : fold_left apply_op ops (mk ks) = mk (fold_left keys_op ops ks).
+Proof.
+  revert ks; induction ops as [|o ops IH]; intros ks; simpl; [reflexivity|].
+  rewrite apply_op_mk. apply IH.
+Qed.
+
+Lemma mem_filter_ne u x ks :
+  mem_bytes x (filter (fun k => negb (beq u k)) ks) = mem_bytes x ks && negb (beq u x).
+Proof.
+  induction ks as [|k ks IH]; simpl; [reflexivity|].
+  destruct (beq u k) eqn:E; simpl.
+  - rewrite IH. apply beq_eq in E; subst k. destruct (beq x u) eqn:Ex.
+    + apply beq_eq in Ex; subst. rewrite beq_refl. simpl. now rewrite andb_false_r.
+    + reflexivity.
+  - rewrite IH. destruct (beq x k) eqn:Ex; simpl; [|reflexivity].
+    apply beq_eq in Ex; subst. now rewrite E.
+Qed.
+
+Lemma nodup_keys_op ks o : NoDup ks -> NoDup (keys_op ks o).
+Proof.
+  intros H. destruct o; simpl.
+  - unfold addk. destruct (mem_bytes u ks) eqn:E; [exact H|].
+    assert (Hn : ~ In u ks) by (intros Hin; apply mem_bytes_In in Hin; congruence).
+    clear E. induction ks as [|a l IH]; simpl; [constructor; [tauto|constructor]|].
+    inversion H; subst. constructor.
+    + rewrite in_app_iff. simpl. intros [H1|[H1|[]]]; [contradiction|]. subst. apply Hn. simpl; auto.
+    + apply IH; auto. intros Hin. apply Hn. simpl; auto.
+  - now apply NoDup_filter.
+Qed.
+
+Lemma addk_nodup_id ks : NoDup ks -> fold_left addk ks [] = ks.
+Proof.
+  intros H. assert (G : forall acc, (forall x, In x ks -> ~ In x acc) -> NoDup ks -> fold_left addk ks acc = acc ++ ks).
+  { clear H. induction ks as [|k ks IH]; intros acc Hd Hn; simpl; [now rewrite app_nil_r|].
+    inversion Hn; subst. unfold addk at 2.
+    destruct (mem_bytes k acc) eqn:E; [apply mem_bytes_In in E; exfalso; eapply Hd; [left; reflexivity|exact E]|].
+    rewrite IH; [now rewrite <- app_assoc| |assumption].
+    intros x Hx Hin. apply in_app_iff in Hin as [Hin|[<-|[]]]; [eapply Hd; [right; exact Hx|exact Hin]|contradiction]. }
+  rewrite G; auto.
+Qed.
+
+(* the state after any history of add/remove is the state built from the list of URIs still present *)
+Theorem caps_history uris ops :
+  exists ks, NoDup ks /\ caps_after uris ops = caps_of ks /\
+             (forall x, mem_bytes x ks = mem_bytes x (fold_left keys_op ops (fold_left addk uris []))).
+Proof.
+  unfold caps_after, caps_of at 1. change (@nil (bytes * capability)) with (mk []).
+  rewrite caps_of_mk, fold_apply_mk.
+  set (ks := fold_left keys_op ops (fold_left addk uris [])).
+  assert (Hnd : NoDup ks).
+  { unfold ks. assert (H0 : NoDup (fold_left addk uris [])).
+    { assert (G : forall acc, NoDup acc -> NoDup (fold_left addk uris acc)).
+      { induction uris as [|u us IH]; intros acc Ha; simpl; [exact Ha|]. apply IH. apply (nodup_keys_op acc (OAdd u) Ha). }
+      apply G. constructor. }
+    revert H0. generalize (fold_left addk uris []). induction ops as [|o ops IH]; intros l Hl; simpl; [exact Hl|].
+    apply IH. now apply nodup_keys_op. }
+  exists ks. split; [exact Hnd|]. split; [|reflexivity].
+  unfold caps_of. change (@nil (bytes * capability)) with (mk []). rewrite caps_of_mk.
+  now rewrite addk_nodup_id.
+Qed.
+
+Lemma c08_history uris ops : exists ks, NoDup ks /\ caps_after uris ops = caps_of ks /\
+  (forall x, mem_bytes x ks = mem_bytes x (fold_left keys_op ops (fold_left addk uris []))).
+Proof. exact (caps_history uris ops). Qed.
+
+(* what is still present after a removal: everything else, and not the removed URI *)
+Lemma c08_remove_present ks u x :
+  mem_bytes x (keys_op ks (ORemove u)) = mem_bytes x ks && negb (beq u x).
+Proof. apply mem_filter_ne. Qed.
